@@ -100,7 +100,12 @@ def run_world(flmod, w, path, prefix=(), expect=None):
                     lock = objs[oi % len(objs)]
                     me = (ti, ri)
                     depth = 2 if w['reentrant'] and form in ('acq', 'with') else 1
-                    if form in ('acq', 'nb', 'timed'):
+                    if form == 'stray':
+                        # release() by a thread that does not hold the lock: must be a no-op, whatever the
+                        # other threads are doing with the same object
+                        lock.release()
+                        log.append((me, form, 0))
+                    elif form in ('acq', 'nb', 'timed'):
                         got = 0
                         for _ in range(depth):
                             if form == 'acq':
@@ -220,6 +225,18 @@ def worlds(tier):
         if q and len({c[1] for c in combo}) == 1 and combo[0][1] != 'acq':
             continue
         out.append(({'threads': [[c] for c in combo], 'nobj': 2, 'reentrant': False, 'default_timeout': -1}, 1))
+    # a stray release() (thread that holds nothing) while another thread's acquire on the same object is pending
+    for reentrant in (False, True):
+        for fa in (('acq', None), ('timed', 2 * D), ('with', None)):
+            for so in (D / 2,):     # while the acquire waits for the OS lock (is_locked is False: a no-op);
+            # NOT while it holds: release() is not owner-checked, any thread may release a held object
+                out.append(({'threads': [[(1, 'acq', None, D)], [(0,) + fa + (D,)], [(0, 'stray', None, 0.0)]],
+                             'nobj': 2, 'reentrant': reentrant, 'default_timeout': -1,
+                             'offsets': {'1': D / 4, '2': so}}, 1))
+        out.append(({'threads': [[(1, 'acq', None, D)], [(0, 'acq', None, D)], [(0, 'stray', None, 0.0)],
+                                 [(0, 'nb', None, 0.0)]],
+                     'nobj': 2, 'reentrant': reentrant, 'default_timeout': -1,
+                     'offsets': {'1': D / 4, '2': D / 2, '3': 1.5 * D}}, 0 if q else 1))
     # descriptor-number reuse: every thread has its own object (coarse points, see no_shared_python_state)
     fa3 = [('nb', None), ('timed', D / 2)]
     fb3 = [('acq', None), ('timed', 2 * D)] if q else [('acq', None), ('timed', 2 * D), ('with', None), ('ctx', None)]
@@ -301,7 +318,7 @@ def main(tier):
     return common.finish(
         PID, tier, total, t0,
         rule=(f'{len(ws)} worlds: 2..3 (thorough 4) threads x 2 FileLock objects on one path x 1..2 rounds, acquire '
-              'forms {acquire(), acquire(False), acquire(timeout), acquire_ctx(...), with}, critical-section '
+              'forms {acquire(), acquire(False), acquire(timeout), acquire_ctx(...), with, stray release()}, critical-section '
               'length {0, D}, reentrant (nested x2) and non-reentrant, default timeouts {-1, 0, D/2}; every '
               'schedule with <= PB preemptions (2 on core worlds, else 1; thorough 2) and <= FB non-default '
               f'choices at blocking points (FB={fb}), line-granular in aiuti/filelock.py + lock/flock/open/close/'
